@@ -26,7 +26,7 @@ RULE = ('One instance whose cache is built by injected responses: each of SRV, T
         'record arriving within 5 ms of the deadline.')
 ASSUMPTIONS = [
     'no cache-flush bits on injected records (flush handling is C06\'s subject); one SRV identity per instance',
-    'availability of a record = [arrival, arrival + ttl) as logged by the harness',
+    'availability of a record = [arrival, arrival + ttl) as logged by the harness, ended early by the arrival of the next copy of the same record (which resets the lifetime, as the cache does)',
 ]
 BUDGET = {'quick': {'examples': 6000}, 'thorough': {'examples': 40000, 'shards': 16}}
 EPS = 2.0
@@ -217,11 +217,11 @@ def check(case: Dict[str, Any]) -> Dict[str, Any]:
     # availability intervals from the harness' log: (ident, arrival g, arrival t, expiry t); TTL 0 withdraws
     avail: List[Tuple[Tuple, int, float, float]] = []
     for l in ex.log:
+        # the cache holds one entry per record identity and every further copy resets its lifetime (also to a shorter one); a
+        # goodbye ends it: earlier versions of the same identity end at the arrival of the next copy
+        avail = [(i, g, a, min(e, l['t']) if i == l['ident'] else e) for i, g, a, e in avail]
         if l['ttl'] > 0:
             avail.append((l['ident'], l['g'], l['t'], l['t'] + 1000.0 * l['ttl']))
-        else:
-            # a goodbye ends earlier versions of the same identity at its arrival
-            avail = [(i, g, a, min(e, l['t']) if i == l['ident'] else e) for i, g, a, e in avail]
     avail_all = list(avail)
     in_window = [(i, g, a, e) for i, g, a, e in avail if g < ex.g_ret and e > t0]       # arrived before the return, unexpired at/after start
     srvs = [x for x in in_window if x[0][0] == 'SRV']
